@@ -112,6 +112,10 @@ class C18(Prop):
             # pattern-free body: no character of any pattern
             pats = "".join([prefix or "", suffix or ""] + list(stop))
             body = "".join(ch for ch in body if ch not in pats)
+            if suffix and not stop and d.chance(0.3, "suffix-char-tail"):
+                # the body itself ends with characters of the suffix (a message that closes a quotation of its own: `Say "hi""`):
+                # exactly ONE suffix is the pattern, what is in front of it is message text
+                body += "".join(d.choice(suffix, "sct", i) for i in range(d.randint(1, 2, "sctlen")))
             form = d.choice(["ps", "ps", "p_stop", "ps_stop"] if stop else ["ps"], "form")
             text = (prefix or "") + body
             if form in ("ps", "ps_stop") and suffix:
